@@ -623,6 +623,20 @@ impl AssetCategorizer {
         )
     }
 
+    /// the last output was sized before it received the leftover: with a coin that needs more bytes its
+    /// minimum is higher
+    pub(crate) fn check_last_output_min_ada(&self, tx_proposal: &TxProposal) -> Result<(), JsError> {
+        if let Some(last_output) = tx_proposal.get_outputs().last() {
+            let (min_ada, _) = self.estimate_output_cost(&tx_proposal.used_utoxs, last_output)?;
+            if last_output.get_total_ada() < min_ada {
+                return Err(JsError::from_str(
+                    "Not enough ADA to cover the minimum ADA of the last output",
+                ));
+            }
+        }
+        Ok(())
+    }
+
     pub(crate) fn estimate_fee(&self, tx_proposal: &TxProposal) -> Result<(Coin, usize), JsError> {
         let mut tx_len = self.get_tx_proposal_size(tx_proposal, false);
         let mut dependable_value = None;
